@@ -222,6 +222,7 @@ theorem trace_partialTraceDM (n : Nat) {T : List Nat} (hn : T.Nodup) (hT : ∀ q
 
 /-! ### Schmidt reshape -/
 
+omit [CommSemiring α] in
 /-- the reshape of `schmidt_decomposition` loses nothing: entry `(idx P x, idx kept x)` of the
 matrix is the amplitude of `x`. -/
 theorem schmidtMat_idx (n : Nat) (P : List Nat) (ψ : Lab → α) (x : Lab)
@@ -345,7 +346,7 @@ theorem axesPT_foldl (n : Nat) (P : List Nat) (hP : ∀ q ∈ P, q < n) (f : Nat
         · subst h3
           have : ¬ (m = m + n) := by omega
           have h4 : ¬ (n ≤ m) := by omega
-          simp [h1, h2, h4, this]
+          simp [h1, h2, h4]
         · have h4 : ¬ (n ≤ m) := by omega
           have h5 : ¬ (m = ind + n) := by omega
           simp [h1, h2, h3, h4, h5]
@@ -354,7 +355,7 @@ theorem axesPT_foldl (n : Nat) (P : List Nat) (hP : ∀ q ∈ P, q < n) (f : Nat
       · simp [h1, h1', h2]
       · by_cases h3 : m = ind + n
         · have h6 : m - n = ind := by omega
-          simp [h1, h1', h2, h3, h6]
+          simp [h3]
         · have h4 : ¬ (m - n = ind) := by omega
           have h5 : ¬ (m = ind) := by omega
           simp [h1, h1', h2, h3, h4, h5]
